@@ -28,7 +28,7 @@ def lean_type(t):
         if t[0] == 'OPT':
             return '(Option ' + lean_type(t[1]) + ')'
     return {'R': 'α', 'I': 'Int', 'N': 'Nat', 'B': 'Bool', 'P': 'Point α', 'X': 'Inter α',
-            'BB': 'BBox', 'S': 'Slc'}[t]
+            'BB': 'BBox', 'S': 'Slc', 'G': 'EGeom α'}[t]
 
 
 def default_val(t):
@@ -64,6 +64,7 @@ FIELD_TYPES = {
     'X': {'p1': 'P', 'p2': 'P'},
     'BB': {'ixmin': 'I', 'ixmax': 'I', 'iymin': 'I', 'iymax': 'I'},
     'S': {'start': 'I', 'stop': 'I'},
+    'G': {'sma': 'R', 'linear_growth': 'B'},
 }
 
 MATH_FUNCS = {'sqrt': 'MathOps.sqrt', 'asin': 'MathOps.asin', 'sin': 'MathOps.sin',
